@@ -8,6 +8,7 @@
   and collects exactly the operands `runI` collects from the list (`decode_run`).
 -/
 import Ctrmml.Spec.MdsResolve
+import Ctrmml.Spec.MdsFrag
 namespace Ctrmml.MdsRead
 open Ctrmml Ctrmml.Seq Ctrmml.SeqWf Ctrmml.MdsResolve Tables
 
@@ -218,9 +219,6 @@ theorem stepI_full {t : Nat} (h1 : 0x81 ≤ t) (h2 : t < 0xe0) (l : Nat) (s : Bo
     stepI [t, l] s = stepI [t] s := by
   simp only [stepI, List.headD_cons, List.headD_nil]
   rw [act_note h1 h2 l]
-
-/-- is the opcode a terminator of `decodeStream` -/
-def isTermOp (b : Nat) : Bool := b == mds_FINISH || b == mds_JUMP || b == mds_DMFINISH
 
 theorem act_go_of_not_term {b : Nat} (h : isTermOp b = false) (a : Nat) (d : Bool) :
     ∃ d' o, act b a d = .go d' o := by
